@@ -267,7 +267,36 @@ class EBB3Hooks(UnrollMixin, Hooks):
             v = cond.v
             if v == PORT:
                 return True
+        # a reply already known to be empty on this path neither starts with a request name
+        # (request names have at least one character) nor contains an error marker
+        if isinstance(cond, Pred) and cond.name == 'startswith' and len(cond.args) == 2 and (
+                self.known_empty(cond.args[0], st) or (
+                    isinstance(cond.args[0], Str) and cond.args[0].is_lit()
+                    and cond.args[0].text() == '')) and not (
+                        isinstance(cond.args[1], Str) and cond.args[1].is_lit()
+                        and cond.args[1].text() == ''):
+            return False
+        if isinstance(cond, In) and isinstance(cond.item, Str) and cond.item.is_lit() and \
+                cond.item.text() and self.known_empty(cond.container, st):
+            return False
         return None
+
+    @staticmethod
+    def known_empty(v, st):
+        from .loops import is_empty_test
+        for c, t in st.path:
+            try:
+                if t and is_empty_test(c, v):
+                    return True
+                if not t and isinstance(c, Truthy) and c.v == v:
+                    return True
+                if not t:
+                    from .interp import neg
+                    if is_empty_test(neg(c), v):
+                        return True
+            except Exception:
+                continue
+        return False
 
     def may_raise(self, target, args, st, node):
         if not self.inject:
